@@ -6,6 +6,8 @@ CONSTANTS
   WithDcf = TRUE
   Emit = TRUE
 INVARIANT AlgIsSelect
+INVARIANT AlgDcfIsSelect
+INVARIANT DcfPlainSame
 INVARIANT OneSectionPerLevel
 INVARIANT ArgvWins
 INVARIANT EmitCase
